@@ -155,7 +155,7 @@ fn unsigned_pairs(sh: Shape) -> BoxedStrategy<(Pat, Pat)> {
 
 fn signed_pairs(sh: Shape) -> BoxedStrategy<(Pat, Pat)> {
     let w = sh.bits() as u64;
-    let specials = (gen::pattern(sh), 0u8..12, gen::pattern(sh)).prop_map(move |(p, sel, p2)| {
+    let specials = (gen::pattern(sh), 0u8..18, gen::pattern(sh), prop_oneof![gen::digitwise(sh), gen::runs(sh), gen::short(sh)]).prop_map(move |(p, sel, p2, p3)| {
         let x = Z::from_le_signed(&p.0);
         let y = Z::from_le_signed(&p2.0);
         let min = Z::pow2(w - 1).neg();
@@ -172,7 +172,14 @@ fn signed_pairs(sh: Shape) -> BoxedStrategy<(Pat, Pat)> {
             8 => (min.clone(), Z::from_i64(-1)),
             9 => (min.clone(), min.clone()),
             10 => (max, Z::from_i64(-1)),
-            _ => (min.add_i(1), Z::from_i64(-1)),
+            11 => (min.add_i(1), Z::from_i64(-1)),
+            // the extreme dividends against digit-wise structured divisors, and the reverse
+            12 => (min.clone(), Z::from_le_signed(&p3.0)),
+            13 => (min.add_i(1), Z::from_le_signed(&p3.0)),
+            14 => (max, Z::from_le_signed(&p3.0)),
+            15 => (Z::from_i64(-1), Z::from_le_signed(&p3.0)),
+            16 => (Z::from_le_signed(&p3.0), min.clone()),
+            _ => (Z::from_le_signed(&p3.0), max),
         };
         (zpat(&n, sh), zpat(&d, sh))
     });
@@ -364,6 +371,21 @@ fn eval_digit<U: UInt>(c: &(Pat, u64), obs: &mut Obs) -> Result<(), String> {
     Ok(())
 }
 
+/// single-digit divisors (all sizes: below half a digit, conversion bases 10^k, extreme digits) with
+/// dividends whose digits / half digits are small multiples of the divisor or miss it by one
+fn digit_relative(sh: Shape) -> BoxedStrategy<(Pat, u64)> {
+    let db = sh.digit_bits();
+    let dmax: u64 = if db == 64 { u64::MAX } else { (1u64 << db) - 1 };
+    let divisor = prop_oneof![
+        3 => gen::digit_value(sh.digit_bytes),
+        3 => (1u32..=db / 2).prop_flat_map(|k| 1u64..(1u64 << k)),
+        2 => (0u32..20).prop_map(move |k| { let mut p = 1u64; for _ in 0..k { if p.checked_mul(10).map_or(true, |q| q > dmax) { break; } p *= 10; } p }),
+        2 => (2u64..=36, 1u32..14).prop_map(move |(r, k)| { let mut p = r; for _ in 1..k { if p.checked_mul(r).map_or(true, |q| q > dmax) { break; } p *= r; } p }),
+        1 => any::<u64>().prop_map(move |x| (x & dmax).max(1)),
+    ];
+    divisor.prop_flat_map(move |d| { let d = (d & dmax).max(1); (gen::base_aligned(sh, d), Just(d)) }).boxed()
+}
+
 fn jobs_for<U, I>(jobs: &mut Vec<Job>)
 where
     U: UInt + Int<I = I>,
@@ -393,6 +415,14 @@ where
     }));
     jobs.push(Job::new(job_name::<U>("u/digit"), move |ctx| {
         ctx.run("digit", ctx.budget(q(QUICK / 2), FACTOR), (gen::pattern(sh), gen::digit_value(sh.digit_bytes)), eval_digit::<U>);
+        ctx.run("digit_relative", ctx.budget(q(QUICK / 2), FACTOR), digit_relative(sh), eval_digit::<U>);
+        // the same operands through every general division form (single-digit divisors take div_rem_digit)
+        ctx.run("digit_relative_general", ctx.budget(q(QUICK / 2), FACTOR), digit_relative(sh).prop_map(move |(n, d)| (n, zpat(&Z::from_u64(d), sh))), eval_u::<U>);
+        ctx.run("digit_relative_general_i", ctx.budget(q(QUICK / 4), FACTOR), (digit_relative(sh), any::<bool>(), any::<bool>()).prop_map(move |((n, d), sn, sd)| {
+            let zn = Z::from_le_unsigned(&n.0).mod_2k(sh.bits() as u64 - 1);
+            let zd = Z::from_u64(d).mod_2k(sh.bits() as u64 - 1);
+            (zpat(&if sn { zn.neg() } else { zn }, sh), zpat(&if sd { zd.neg() } else { zd }, sh))
+        }), eval_i::<I>);
     }));
 }
 
@@ -419,7 +449,7 @@ fn main() {
     runner::main(
         Property {
             id: "C03",
-            rule: "(dividend, divisor) pairs come from: (1) structured patterns with the divisor shaped to k = 1..N significant digits and 0..digit_bits-1 leading zeros in its top digit; (2) backwards construction n = q*d + r with r in {0, 1, d-1, d/2, random, d-delta} and extreme quotient digits; (3) Algorithm-D stress shapes scaled to each digit base (Hacker's Delight add-back and qhat=b+1 cases, dividends whose leading digits equal the divisor's, divisors b^k/2+-1 and b^k-1, all-ones dividend, add-back family n = q*d + d - delta with >=3-digit divisors); (4) signed: all sign combinations plus MIN, -1, +-1, +-2, n=+-d, (MIN,-1); (5) zero divisors for the checked forms. Every case checks / % div rem and the checked/wrapping/overflowing/saturating/strict forms of div, rem, div_euclid, rem_euclid, plus div_floor, div_ceil, (checked_)next_multiple_of, against a binary shift-subtract reference division and re-derives n = q*d + r from bnum's own outputs. NON-TRIVIAL: a shadow run of Algorithm D on the reference side says the multi-digit path is reached (divisor >= 2 digits and |n| >= |d|), or signed operands with non-zero remainder and a negative operand (rounding variants differ), or a special case (zero divisor, MIN/-1). distinct = distinct (profile, job, inputs) among non-trivial cases by 64-bit hash. 8-bit configuration enumerated completely. A deterministic SWEEP additionally enumerates, per configuration, position-specific inputs (2^k - 1, 2^k, 2^k + 1 with their negations and complements; carry / borrow chains and power-of-two products ending at every bit position k; every shift / rotate amount; every bit index; every float exponent) - all positions on types up to 1088 bits, a sparse selection of a few hundred positions on wider types in the quick tier, all positions in the thorough tier. SIBLINGS job (per configuration): the entry points of this property's own operations that other properties anchor - the six operand forms of the std operators (a op b, &a op b, a op &b, &a op &b, a op= b, a op= &b; for shifts every primitive and bnum-typed amount type), Sum/Product, and the num_traits forwarders - are compared with the inherent method / const twin (same value, same panic outcome), so that a regression confined to one rarely used entry point is reported by the check of the operation it belongs to as well as by C17/C18.",
+            rule: "(dividend, divisor) pairs come from: (1) structured patterns with the divisor shaped to k = 1..N significant digits and 0..digit_bits-1 leading zeros in its top digit; (2) backwards construction n = q*d + r with r in {0, 1, d-1, d/2, random, d-delta} and extreme quotient digits; (3) Algorithm-D stress shapes scaled to each digit base (Hacker's Delight add-back and qhat=b+1 cases, dividends whose leading digits equal the divisor's, divisors b^k/2+-1 and b^k-1, all-ones dividend, add-back family n = q*d + d - delta with >=3-digit divisors); (4) signed: all sign combinations plus MIN, -1, +-1, +-2, n=+-d, (MIN,-1), and MIN / MIN+1 / MAX / -1 against digit-wise structured divisors (and the reverse); (5) zero divisors for the checked forms; (6) single-digit divisors (below half a digit, powers of the radices 2..36, extreme digits) with dividends built from whole-digit or half-digit chunks that are small multiples of the divisor or miss it by one, so that the partial dividend of a short-division step equals the divisor - through Div/Rem<digit> and through every general form, signed and unsigned. Every case checks / % div rem and the checked/wrapping/overflowing/saturating/strict forms of div, rem, div_euclid, rem_euclid, plus div_floor, div_ceil, (checked_)next_multiple_of, against a binary shift-subtract reference division and re-derives n = q*d + r from bnum's own outputs. NON-TRIVIAL: a shadow run of Algorithm D on the reference side says the multi-digit path is reached (divisor >= 2 digits and |n| >= |d|), or signed operands with non-zero remainder and a negative operand (rounding variants differ), or a special case (zero divisor, MIN/-1). distinct = distinct (profile, job, inputs) among non-trivial cases by 64-bit hash. 8-bit configuration enumerated completely. A deterministic SWEEP additionally enumerates, per configuration, position-specific inputs (2^k - 1, 2^k, 2^k + 1 with their negations and complements; carry / borrow chains and power-of-two products ending at every bit position k; every shift / rotate amount; every bit index; every float exponent) - all positions on types up to 1088 bits, a sparse selection of a few hundred positions on wider types in the quick tier, all positions in the thorough tier. SIBLINGS job (per configuration): the entry points of this property's own operations that other properties anchor - the six operand forms of the std operators (a op b, &a op b, a op &b, &a op &b, a op= b, a op= &b; for shifts every primitive and bnum-typed amount type), Sum/Product, and the num_traits forwarders - are compared with the inherent method / const twin (same value, same panic outcome), so that a regression confined to one rarely used entry point is reported by the check of the operation it belongs to as well as by C17/C18.",
             assumptions: &[
                 "digits()/from_digits()/to_bits()/from_bits() are the trusted observation channel",
                 "reference division is binary shift-and-subtract (no quotient-digit estimation), self-tested on every run",
